@@ -592,3 +592,25 @@ Proof.
   destruct Hs as [<-|[<-|[]]]; cbn in Ho, Hin; try discriminate.
   destruct Hin as [E|[]]. discriminate.
 Qed.
+
+(* ---------------------------------------------------------------- instances (the hypotheses of the Sections are satisfiable) *)
+Definition sum_sem (s : stmt) (e : env nat) : nat := fold_right (fun d acc => e d + acc) 1 (s_deps s).
+
+Lemma sum_sem_reads_only_deps : forall s e1 e2, (forall d, In d (s_deps s) -> e1 d = e2 d) -> sum_sem s e1 = sum_sem s e2.
+Proof.
+  intros s e1 e2. unfold sum_sem. induction (s_deps s) as [|d l IH]; intro H; [reflexivity|].
+  simpl. rewrite (H d (or_introl eq_refl)). rewrite IH; [reflexivity|]. intros x Hx. apply H. right. exact Hx.
+Qed.
+
+Definition model_sorter (ss : list stmt) : list stmt := match model_sort ss with Some o => o | None => ss end.
+
+Lemma model_sorter_topological : forall ss, ~ cyclic ss -> Permutation (model_sorter ss) ss /\ topo_sorted (model_sorter ss).
+Proof.
+  intros ss H. destruct (model_sort_correct ss H) as [o [E HO]]. unfold model_sorter. rewrite E. exact HO.
+Qed.
+
+(* DS_d := DS_b + 1; DS_c <- DS_b * DS_x; DS_b := DS_a + 1  written in an order that is not executable as is *)
+Definition example_unsorted : list stmt := [Stmt 4 [2] false; Stmt 3 [2; 1] true; Stmt 2 [0] false].
+Lemma example_unsorted_sorted : is_topo_order [3; 1; 2] example_unsorted = true /\ is_topo_order [3; 2; 1] example_unsorted = true
+  /\ is_topo_order [1; 2; 3] example_unsorted = false /\ cycle_detected example_unsorted = false.
+Proof. vm_compute. repeat split; reflexivity. Qed.
